@@ -46,7 +46,13 @@ void hex(char *dst, const void *src, size_t n); /* dst must hold 2n+1 */
 const char *sym_name(const void *addr);         /* exact-address symbol name from <argv0>.syms (nm), "?" if unknown */
 const char *sym_containing(const void *addr, long *off);
 void *sym_addr(const char *name);               /* NULL if unknown */
-uintptr_t sym_next_global(uintptr_t a);         /* address of the next global text symbol above a */
+uintptr_t sym_next_global(uintptr_t a);
+/* static-storage watch (C18): snapshot of every writable input section of the library's objects, taken at the
+ * first call; static_watch_check reports bytes that differ from the load-time image, other than the dispatch
+ * slots and the self-test status. Returns the number of sections watched (0 if the section list is missing). */
+int static_watch_init(void);
+int static_watch_check(const char *prop, const char *when);     /* number of violations reported */
+void static_watch_inventory(char *dst, size_t n);         /* address of the next global text symbol above a */
 
 /* ---------- guarded memory ---------- */
 enum { G_END = 0, G_START = 1, G_MID = 2 };
